@@ -76,6 +76,9 @@ fn profile_from(a: &Args, default: &str) -> engine::Profile {
             p.steps = (n, n);
         }
     }
+    if let Some(n) = a.kv.get("reps").and_then(|v| v.parse::<usize>().ok()) {
+        p.nrep = (n, n);
+    }
     p.cap_shift = a.u64("capshift", 0) as usize;
     p.perm_salt = a.u64("permsalt", 0);
     if a.flag("nofinal") {
